@@ -110,6 +110,9 @@ func (e *Engine) heapGet(st *State, comp, sort string) string {
 		return t
 	}
 	ep := st.ghost["$epoch"]
+	if ep != "0" && e.immutableComp(comp) {
+		ep = "0" // init-only field: same contents in every epoch
+	}
 	name := quoteSym(strings.Trim(comp, "|") + "@" + ep)
 	e.declOnce("const:"+name, fmt.Sprintf("(declare-const %s %s)", name, sort))
 	st.heap[comp] = name
@@ -131,12 +134,27 @@ func (e *Engine) havocAll(st *State) {
 	e.fresh++
 	st.ghost["$epoch"] = fmt.Sprint(e.fresh)
 	for k := range st.heap {
+		if e.immutableComp(k) {
+			continue // init-only field: unknown code cannot assign it (immutable.go)
+		}
 		delete(st.heap, k)
+	}
+	// init-only components not touched yet on this path keep their epoch-0 name
+	for k, cf := range e.compFields {
+		if _, ok := st.heap[k]; !ok && e.immutableComp(k) {
+			_, s := e.fieldComp(cf.si, cf.field)
+			name := quoteSym(strings.Trim(k, "|") + "@0")
+			e.declOnce("const:"+name, fmt.Sprintf("(declare-const %s %s)", name, s))
+			st.heap[k] = name
+			st.ghost["$sort:"+k] = s
+		}
 	}
 }
 
 func (e *Engine) fieldComp(si *structInfo, i int) (string, string) {
-	return e.compName("H", si.sort, si.st.Field(i).Name()), "(Array Int " + e.sortOf(si.ftypes[i]) + ")"
+	c := e.compName("H", si.sort, si.st.Field(i).Name())
+	e.noteFieldComp(c, si, i)
+	return c, "(Array Int " + e.sortOf(si.ftypes[i]) + ")"
 }
 
 func (e *Engine) elemComp(t types.Type) (string, string) {
@@ -489,8 +507,34 @@ func (e *Engine) contractFor(fn *ssa.Function) *Contract {
 		if c, ok := e.Contracts[fnKey(o)]; ok {
 			return c
 		}
+		// contracts of generic functions/methods are written without the
+		// type parameter list: (*ShardedMap).Value, BlockItemReadersDecode
+		if c, ok := e.Contracts[stripTypeArgs(fnKey(o))]; ok {
+			return c
+		}
+	}
+	if k := stripTypeArgs(fnKey(fn)); k != fnKey(fn) {
+		if c, ok := e.Contracts[k]; ok {
+			return c
+		}
 	}
 	return nil
+}
+
+func stripTypeArgs(s string) string {
+	var b strings.Builder
+	d := 0
+	for _, r := range s {
+		switch {
+		case r == '[':
+			d++
+		case r == ']':
+			d--
+		case d == 0:
+			b.WriteRune(r)
+		}
+	}
+	return b.String()
 }
 
 // FindFunc resolves a contract key to the SSA function.
